@@ -17,6 +17,8 @@ import (
 	"time"
 
 	"github.com/tetratelabs/wazero"
+	"github.com/tetratelabs/wazero/api"
+	"github.com/tetratelabs/wazero/imports/wasi_snapshot_preview1"
 	"github.com/tetratelabs/wazero/experimental/sock"
 
 	"verifharness/sim"
@@ -331,6 +333,14 @@ func (c18) Run(t *tape.Tape, cfg sim.Config) (res sim.Result) {
 	res.Shape = sim.ShapeOf(names...)
 	res.Nontrivial = hasClock && hasRand && hasPoll
 	res.Steps = int64(len(script))
+	if t.Chance(1, 3) {
+		// elsewhere in the process an embedder OVERRIDES WASI functions for its own runtime (the documented
+		// way: export the built-in functions into a host module builder, then export its own clock_time_get
+		// and random_get under the same names); that runtime is closed again.  Default-configured guests of
+		// other runtimes have nothing to do with it
+		overrideWASIElsewhere(cfg.Engine)
+		res.Stat("probe.wasi_functions_overridden_in_another_runtime_first", 1)
+	}
 	// direct closure checks come first, on a fresh guest
 	if !closureChecks(&res, false) {
 		return
@@ -521,5 +531,33 @@ func childMain(args []string) {
 	}
 	for _, l := range tr {
 		fmt.Println("T " + l)
+	}
+}
+
+func overrideWASIElsewhere(engine string) {
+	ctx := context.Background()
+	var rc wazero.RuntimeConfig
+	if engine == "interpreter" {
+		rc = wazero.NewRuntimeConfigInterpreter()
+	} else {
+		rc = wazero.NewRuntimeConfigCompiler()
+	}
+	rt := wazero.NewRuntimeWithConfig(ctx, rc)
+	defer rt.Close(ctx)
+	b := rt.NewHostModuleBuilder(wasi_snapshot_preview1.ModuleName)
+	wasi_snapshot_preview1.NewFunctionExporter().ExportFunctions(b)
+	i32, i64 := api.ValueTypeI32, api.ValueTypeI64
+	b.NewFunctionBuilder().WithGoModuleFunction(api.GoModuleFunc(func(_ context.Context, mod api.Module, stack []uint64) {
+		mod.Memory().WriteUint64Le(uint32(stack[2]), 0x1122334455667788)
+		stack[0] = 0
+	}), []api.ValueType{i32, i64, i32}, []api.ValueType{i32}).Export("clock_time_get")
+	b.NewFunctionBuilder().WithGoModuleFunction(api.GoModuleFunc(func(_ context.Context, mod api.Module, stack []uint64) {
+		for i := uint32(0); i < uint32(stack[1]); i++ {
+			mod.Memory().WriteByte(uint32(stack[0])+i, 0x5A)
+		}
+		stack[0] = 0
+	}), []api.ValueType{i32, i32}, []api.ValueType{i32}).Export("random_get")
+	if _, err := b.Instantiate(ctx); err != nil {
+		panic(err)
 	}
 }
